@@ -73,6 +73,28 @@ __wrap_select(int n, fd_set *r, fd_set *w, fd_set *e, struct timeval *tv) {
   uint64_t ms;
   if (vf_real_clock)
     return __real_select(n, r, w, e, tv);
+  if (r) {
+    /* data the peer has already sent and the library has not read yet (the rest of a stream
+     * chunk, a queued datagram) is there at once, as on a real socket */
+    int i, ready = 0;
+    fd_set out;
+    FD_ZERO(&out);
+    for (i = 0; i < VF_MAX_SOCKS; i++) {
+      if (vsocks[i].used && vsocks[i].fd >= 0 && vsocks[i].fd < n && FD_ISSET(vsocks[i].fd, r) &&
+          (vsocks[i].q || vsocks[i].peer_closed)) {
+        FD_SET(vsocks[i].fd, &out);
+        ready++;
+      }
+    }
+    if (ready) {
+      *r = out;
+      if (w)
+        FD_ZERO(w);
+      if (e)
+        FD_ZERO(e);
+      return ready;
+    }
+  }
   ms = tv ? (uint64_t)tv->tv_sec * 1000 + (uint64_t)tv->tv_usec / 1000 : 1000;
   vf_now_ms += ms; /* a poll (time-out 0, e.g. from coap_io_pending()) costs nothing */
   if (r)
@@ -225,6 +247,7 @@ __wrap_coap_socket_close(coap_socket_t *sock) {
   sock->flags = COAP_SOCKET_EMPTY;
 }
 
+int vf_defer_connect = 0; /* TCP connects stay "in progress" until the harness completes them */
 int vf_send_fail_countdown = 0; /* k>0: the k-th send returns -1 */
 
 ssize_t
@@ -345,7 +368,11 @@ __wrap_coap_socket_connect_tcp1(coap_socket_t *sock, const coap_address_t *local
   vs->initiator = 1;
   coap_address_copy(local_addr, &vs->local);
   coap_address_copy(remote_addr, &vs->remote);
-  sock->flags |= COAP_SOCKET_NOT_EMPTY | COAP_SOCKET_CONNECTED | COAP_SOCKET_WANT_READ;
+  if (vf_defer_connect)
+    /* a connect() in progress: completed by the harness (CAN_CONNECT) in a later step */
+    sock->flags |= COAP_SOCKET_NOT_EMPTY | COAP_SOCKET_WANT_CONNECT;
+  else
+    sock->flags |= COAP_SOCKET_NOT_EMPTY | COAP_SOCKET_CONNECTED | COAP_SOCKET_WANT_READ;
   ev_begin("tcp_connect");
   ev_int("vs", vs->id);
   ev_int("conn", vs->conn);
@@ -361,7 +388,7 @@ __wrap_coap_socket_connect_tcp2(coap_socket_t *sock, coap_address_t *local_addr,
   (void)local_addr;
   (void)remote_addr;
   sock->flags &= ~(COAP_SOCKET_WANT_CONNECT | COAP_SOCKET_CAN_CONNECT);
-  sock->flags |= COAP_SOCKET_CONNECTED;
+  sock->flags |= COAP_SOCKET_CONNECTED | COAP_SOCKET_WANT_READ;
   return 1;
 }
 
